@@ -438,8 +438,46 @@ def setorder_case(model, target):
                                   desc="the %s output of model '%s' depends on set iteration order: element orders %s; potable gives different bytes under PYTHONHASHSEED %s" % (
                                     target, model, orders, {k[:8]: v for k, v in seen.items()}), record=dict(kind="hashseed", model=text)))
   else:
-    res["inconclusive"].append("symbolic set orders give %d outputs (%s) but 24 hash seeds gave identical bytes" % (len(outputs), orders))
+    # same element order on every path, yet different bytes: not the set order but what earlier builds of this process left behind
+    r = common.in_fresh_process("checks.c12", "rebuild_digests", text, 8)
+    res["replays"] += 1
+    if len(set(r["digests"])) > 1:
+      res["violations"].append(dict(key="rebuild-%s-%s" % (model, target),
+                                    desc="building, writing and dropping the %s model '%s' %d times in one process gives %d different outputs (first differing build: #%d)" % (
+                                      target, model, len(r["digests"]), len(set(r["digests"])), 1 + [d != r["digests"][0] for d in r["digests"]].index(True)),
+                                    record=dict(kind="rebuild", model=text)))
+    else:
+      res["inconclusive"].append("symbolic set orders give %d outputs (%s) but 24 hash seeds gave identical bytes" % (len(outputs), orders))
   return res
+
+
+def rebuild_digests(text, n):
+  """Fresh process: the model is built, written and dropped n times, alternating with a copy that has other numbers."""
+  import gc
+  import hashlib
+  import re as _re
+  import logging
+  from atsim.potentials.config import Configuration
+  logging.disable(logging.CRITICAL)
+  lines, body = [], False
+  for line in text.split("\n"):
+    if line.startswith("["):
+      body = not (line.startswith("[Tabulation") or line.startswith("[Species"))
+    if body and not line.startswith("["):
+      line = _re.sub(r"(?<![\w.>=])(\d+\.\d+)", lambda m: repr(float(m.group(1)) * 1.5), line)
+    lines.append(line)
+  sibling = "\n".join(lines)
+  out = []
+  for i in range(n):
+    t = Configuration().read(io.StringIO(text))
+    out.append(hashlib.sha256(_write_bytes(t).encode("utf-8")).hexdigest())
+    del t
+    gc.collect()
+    t = Configuration().read(io.StringIO(sibling))
+    _write_bytes(t)
+    del t
+    gc.collect()
+  return dict(digests=out)
 
 
 def potable_bytes(text):
@@ -506,6 +544,27 @@ def repeat_case(target, nr):
     step(lambda: _write_bytes(t_other))
     b1after = step(lambda: _write_bytes(t1))
     b2 = step(lambda: _write_bytes(Configuration().read(io.StringIO(text))))
+    # a model of the same shape on the same grid, other numbers, built, written and dropped; then the model rebuilt
+    import gc
+    import re as _re
+    lines, body = [], False
+    for line in text.split("\n"):
+      if line.startswith("["):
+        body = not (line.startswith("[Tabulation") or line.startswith("[Species"))
+      if body and not line.startswith("["):
+        line = _re.sub(r"(?<![\w.>=])(\d+\.\d+)", lambda m: repr(float(m.group(1)) * 1.5), line)
+      lines.append(line)
+    sibling = "\n".join(lines)
+    b3 = b1
+    if sibling != text:
+      def dropped():
+        for _i in range(3):
+          t_s = Configuration().read(io.StringIO(sibling))
+          _write_bytes(t_s)
+          del t_s
+          gc.collect()
+        return _write_bytes(Configuration().read(io.StringIO(text)))
+      b3 = step(dropped)
     # evaluation order: energies queried backwards and forwards give the same numbers as a fresh object
     pots = getattr(t1, "potentials", [])
     rs = [0.0 + 0.75 * i for i in range(1, 8)]
@@ -517,6 +576,7 @@ def repeat_case(target, nr):
     res["replays"] += 6
     checks = [("writing the same tabulation twice", b1, b1again), ("writing after another model was built and written", b1, b1after),
               ("building the model a second time (another model in between)", b1, b2),
+              ("building the model again after a same-shape, same-grid model with other numbers was built, written and dropped", b1, b3),
               ("evaluating the energies in descending instead of ascending order", ev_fwd, ev_back),
               ("evaluating on a used instead of a fresh object", ev_fresh, ev_fwd)]
     for what, x, y in checks:
